@@ -113,6 +113,8 @@ func (p *proxy) handleAgentPostResponse(w http.ResponseWriter, r *http.Request, 
 	}
 	if _, err := io.Copy(pw, respBody); err != nil {
 		log.Printf("Could not read response to request %q: %v", requestID, err)
+		// Let the client-facing side know that the response is incomplete.
+		pw.CloseWithError(err)
 		http.Error(w, "Failure reading request body", http.StatusInternalServerError)
 	}
 }
@@ -254,10 +256,14 @@ func (p *proxy) ServeHTTP(w http.ResponseWriter, r *http.Request) {
 		_, err := io.Copy(w, resp.Body)
 		resp.Body.Close()
 		if err != nil {
-			// The client went away before the whole response was relayed. The agent may still be
-			// sending the rest of it, so the trailers are not complete (and still being written).
+			// Either the client went away before the whole response was relayed (the agent may
+			// still be sending the rest of it, so the trailers are not complete and still being
+			// written), or the agent failed to deliver the rest of the response.
+			//
+			// In the latter case the client must not take what it got for the whole response, so
+			// we abort the connection instead of ending the body regularly.
 			log.Printf("Failure relaying the response to %q: %v", id, err)
-			return
+			panic(http.ErrAbortHandler)
 		}
 		for name, vals := range resp.Trailer {
 			if isHopByHopHeader(name) {
